@@ -694,7 +694,9 @@ def run(ctx):
                 "(stub / well-typed result / wrongly typed / incomplete / RMC errors / mapped, subclassed and unmapped exceptions / a result that is well typed "
                 "except for ONE value of any builtin kind at any position: whole result, response field, list element, map key or value, structure "
                 "attribute at any depth) x (PRUDP minor version, NEX version) x request body "
-                "(valid, extended, truncated at every length, random); each request goes through the real RMCClient.start loop and through the Lean model; "
+                "(valid, extended, truncated at every length, random, or valid except for ONE length / count / version / tag field of its NESTED framing — structure frame, "
+                "anydata holder, buffer, string, list, map at any depth — declaring less than needed, more than there is, or the right amount followed by surplus); "
+                "each request goes through the real RMCClient.start loop and through the Lean model; "
                 "a case is distinct per (class, method, kind, script, body)")
     ctx.assumptions.append("which `except`/`isinstance` clause a given Python exception class matches is modelled (Exc), exercised with subclasses and "
                            "multiple inheritance; user handlers are parameters of the model (their own side effects are outside it); "
@@ -902,6 +904,13 @@ def replay(ctx, path):
     servers, _ = T.extract_all(vf.REPO)
     lookup = {"%s.%s" % (s["module"], s["class"]): s for s in servers}
     regs = [lookup[n] for n in r.get("registered", [])]
+    def reref(c):
+        # the reference reading of the parameters is recomputed (the replay file does not carry the value trees)
+        if c.get("extract") == "ref":
+            ref = FR.reference(FR.schema_for(session_settings(r.get("minor_version", 0))), bool(c["rq"]["hdr"]), c["rq"]["tys"], bytes.fromhex(c["body"]))
+            if ref is not None: c["ref"] = ref
+        return c
+    for c in r.get("sequence", []) + [case]: reref(c)
     if "sequence" in r:
         seq = r["sequence"]
         a = R.run_sessions([(regs, seq, r.get("minor_version", 0))])[0]
